@@ -275,8 +275,10 @@ def run(prog, ctx):
                 continue                      # plain variable, not a location inside an object
             if root is None:
                 continue
-            if l.k == "UnaryOperator" and root.j.get("dk") == "local" and d == 1 and False:
-                continue
+            rct = (root.j.get("ct") or "")
+            if d == 0 and root.j.get("dk") in ("local", "param") and l.k == "MemberExpr" and not rct.endswith("*") and not rct.endswith("]") \
+                    and not any(r9 in rct for r9 in OBJECT_RECORDS):
+                continue                      # a member of a local struct VALUE of the function's own (a (pointer, length) pair ...): not an object
             t4 += 1
             inst = "%s: %s = %s" % (f.name, render(l), render(rhs)[:60])
             r = rhs.strip()
